@@ -1,0 +1,78 @@
+//! Verification hooks (only compiled with the `verif-hooks` feature).
+//!
+//! Read-only view of, and forcing access to, the private control state
+//! of the [`RawMachine`]. Nothing here is used by the emulator itself.
+use super::{FlagWrite, Interrupt, MemoryWait, RawMachine, State};
+use crate::machine::{AluOutput, RegisterNumber};
+
+/// Read-only view of the private CPU state.
+#[derive(Debug, Clone, PartialEq)]
+pub struct VerifSnapshot {
+    pub micro_address: usize,
+    pub instruction_register: u8,
+    pub pending_register_write: Option<RegisterNumber>,
+    pub pending_flag_write: bool,
+    pub pending_edge_interrupt: bool,
+    pub pending_level_interrupt: bool,
+    pub pending_wait_for_memory: bool,
+    pub alu_output: AluOutput,
+    pub last_bus_read: u8,
+}
+
+impl RawMachine {
+    /// Snapshot of the private control state.
+    pub fn verif_snapshot(&self) -> VerifSnapshot {
+        VerifSnapshot {
+            micro_address: self.microprogram_ram.get_address(),
+            instruction_register: self.instruction_register.get_raw(),
+            pending_register_write: self.pending_register_write,
+            pending_flag_write: self.pending_flag_write.is_some(),
+            pending_edge_interrupt: self.pending_edge_interrupt.is_some(),
+            pending_level_interrupt: self.pending_level_interrupt.is_some(),
+            pending_wait_for_memory: self.pending_wait_for_memory.is_some(),
+            alu_output: self.alu_output.clone(),
+            last_bus_read: self.last_bus_read,
+        }
+    }
+
+    /// Force the control state (micro address, instruction register, flags,
+    /// latched ALU output, interrupt flip-flop, last bus read). Pending writes
+    /// and waits are cleared and the machine is set to running.
+    #[allow(clippy::too_many_arguments)]
+    pub fn verif_force_control(
+        &mut self,
+        micro_address: usize,
+        ir: u8,
+        flags: u8,
+        alu: AluOutput,
+        pending_edge: bool,
+        last_bus_read: u8,
+    ) {
+        self.microprogram_ram.set_address(micro_address);
+        self.instruction_register.set_raw(ir);
+        self.register.set(RegisterNumber::R4, flags);
+        self.alu_output = alu;
+        self.pending_edge_interrupt = if pending_edge { Some(Interrupt) } else { None };
+        self.pending_register_write = None;
+        self.pending_flag_write = None;
+        self.pending_wait_for_memory = None;
+        self.last_bus_read = last_bus_read;
+        self.state = State::Running;
+    }
+
+    /// Force the pending write/wait latches (used to build arbitrary mid-cycle states).
+    pub fn verif_force_pending(
+        &mut self,
+        register_write: Option<RegisterNumber>,
+        flag_write: bool,
+        wait_for_memory: bool,
+    ) {
+        self.pending_register_write = register_write;
+        self.pending_flag_write = if flag_write { Some(FlagWrite) } else { None };
+        self.pending_wait_for_memory = if wait_for_memory {
+            Some(MemoryWait)
+        } else {
+            None
+        };
+    }
+}
